@@ -162,6 +162,51 @@ static void determinism(int thorough) {
 			} } }
 }
 
+// Large inputs where LZMA2 chunk limits and the optimiser's look-ahead interact: the bytes must not depend on how the input / output is sliced.
+static size_t big_encode(const lzma_filter *f, int lzma1, const unsigned char *in, size_t n, size_t inchunk, size_t outchunk, unsigned char *out, size_t cap, lzma_ret *ret) {
+	lzma_stream s = LZMA_STREAM_INIT; lzma_ret r = lzma1 ? lzma_alone_encoder(&s, f[0].options) : lzma_stream_encoder(&s, f, LZMA_CHECK_CRC32); if (r != LZMA_OK) { *ret = r; return 0; }
+	size_t ip = 0, oc = 0; s.next_out = out;
+	for (long g = 0; g < 400000000; g++) { if (s.avail_in == 0 && ip < n) { size_t c = inchunk && n - ip > inchunk ? inchunk : n - ip; s.next_in = in + ip; s.avail_in = c; ip += c; }
+		if (s.avail_out == 0 && oc < cap) { size_t c = outchunk && cap - oc > outchunk ? outchunk : cap - oc; s.avail_out = c; oc += c; }
+		size_t granted = s.avail_out; r = lzma_code(&s, ip == n ? LZMA_FINISH : LZMA_RUN);
+		if (s.avail_out > granted) { r = LZMA_PROG_ERROR; break; }	// avail_out grew (wrapped around): the coder wrote more than the space it was given
+		if (r != LZMA_OK) break; }
+	*ret = r; size_t t = s.total_out; if (s.next_out != out + t) *ret = LZMA_PROG_ERROR; lzma_end(&s); return t;
+}
+static void determinism_big(void) {
+	static unsigned char bin[3 << 20], o0[1 << 20], o1[1 << 20]; lzma_options_lzma o; lzma_filter f[2] = { { LZMA_FILTER_LZMA2, &o }, { LZMA_VLI_UNKNOWN, NULL } };
+	for (int shape = 0; shape < 4; shape++) { size_t n = 0; if (lzma_lzma_preset(&o, 6)) return; o.dict_size = 1 << 20; const char *nm;
+		if (shape == 0) { nm = "2.6 MiB of 60-byte records with a counter (2 MiB chunk limit), nice_len 273"; o.nice_len = 273; n = (2u << 20) + 600000; for (size_t i = 0; i < n; i += 60) { char rec[64]; snprintf(rec, sizeof rec, "record %07zu of the same sixty-byte layout, padded, dots.\n", i / 60); memcpy(bin + i, rec, n - i < 60 ? n - i : 60); } }
+		else { nm = shape == 1 ? "random(65260) + overlapping 150-byte matches + random(20000), nice_len 273" : shape == 2 ? "the same with nice_len 64 and a 700-byte match after the overlaps" : "LZMA1 (.lzma), 60 000 bytes, output in 1-3 byte pieces";
+			o.nice_len = shape == 2 ? 64 : 273; size_t r = 65260; uint32_t x = 2463534242u; for (size_t i = 0; i < r; i++) { x ^= x << 13; x ^= x >> 17; x ^= x << 5; bin[i] = (unsigned char)(x >> 9); }
+			// chained blocks: K blocks of BL bytes, SP bytes apart in the random part, each starting with the last OV bytes of the previous one; then the blocks again,
+			// overlapping by OV bytes, so that a new match of BL bytes (shorter than nice_len) starts every BL-OV bytes: about 4 KiB of uninterrupted look-ahead for shape 2
+			int K = shape == 2 ? 100 : 26; size_t BL = shape == 2 ? 50 : 150, OV = shape == 2 ? 10 : 30, SP = shape == 2 ? 100 : 400;
+			for (int k = 1; k < K; k++) memcpy(bin + 1000 + SP * (size_t)k, bin + 1000 + SP * (size_t)(k - 1) + (BL - OV), OV);
+			n = r; memcpy(bin + n, bin + 1000, BL); n += BL; for (int k = 1; k < K; k++) { memcpy(bin + n, bin + 1000 + SP * (size_t)k + OV, BL - OV); n += BL - OV; }
+			if (shape == 2) { memcpy(bin + n, bin + 30000, 700); n += 700; }
+			for (size_t i = 0; i < 20000; i++) bin[n + i] = bin[(i * 7 + 13) % r] ^ (unsigned char)i; n += 20000; if (shape == 3) n = 60000; }
+		static const size_t IC[] = { 0, 997, 64, 1, 0, 0 }, OC[] = { 0, 0, 0, 0, 1, 3 };
+		lzma_ret r0; size_t l0 = big_encode(f, shape == 3, bin, n, 0, 0, o0, sizeof o0, &r0); runs++;
+		if (r0 != LZMA_STREAM_END) { h_fail("determinism:big-status", "one-shot encode returned %d: %s", r0, nm); continue; }
+		for (int v = 1; v < 6; v++) { if (shape == 0 && (v == 3 || v == 4)) continue; H_CASE("c06 determinism-big %s in=%zu out=%zu", nm, IC[v], OC[v]); lzma_ret r1; size_t l1 = big_encode(f, shape == 3, bin, n, IC[v], OC[v], o1, sizeof o1, &r1); runs++;
+			if (r1 != LZMA_STREAM_END) h_fail("determinism:big-status", "encode with input pieces of %zu / output pieces of %zu returned %d: %s", IC[v], OC[v], r1, nm);
+			else if (l1 != l0 || memcmp(o0, o1, l0)) h_fail("determinism:big-bytes", "input pieces of %zu / output pieces of %zu give %zu bytes, one call gives %zu (or different content): %s", IC[v], OC[v], l1, l0, nm); }
+		nontrivial++; }
+	// a long match that the optimiser first sees near the far end of its look-ahead (about 4 KiB ahead, reached through a run of 23-byte matches): the window must
+	// keep match_len_max bytes beyond the look-ahead whatever nice_len is
+	for (size_t k = 3900; k <= 4100; k += 25) { if (lzma_lzma_preset(&o, 6)) return; static unsigned char q[800], b[4200]; uint32_t x = 12345; size_t n = 0;
+		for (size_t i = 0; i < sizeof q; i++) { x = x * 1103515245u + 12345u; q[i] = (unsigned char)(x >> 23); } for (size_t i = 0; i < sizeof b; i++) { x = x * 1103515245u + 12345u; b[i] = (unsigned char)(x >> 23); }
+		memcpy(bin + n, q, 800); n += 800; bin[n++] = 1; memcpy(bin + n, b + k - 10, 10); n += 10; memcpy(bin + n, q + 400, 10); n += 10; bin[n++] = 2;
+		for (size_t i = 0; i < sizeof b; i++) bin[n++] = (i % 24 == 0) ? (unsigned char)(b[i] ^ 0xFF) : b[i];
+		for (size_t i = 0; i < sizeof b; i++) bin[n++] = (i % 24 == 12) ? (unsigned char)(b[i] ^ 0x55) : b[i];
+		memcpy(bin + n, q, 273); n += 273; memcpy(bin + n, b, k); n += k; memcpy(bin + n, q + 400, 300); n += 300; for (size_t i = 0; i < 6000; i++) { x = x * 1103515245u + 12345u; bin[n++] = (unsigned char)(x >> 23); }
+		lzma_ret r0, r1; size_t l0 = big_encode(f, 0, bin, n, 0, 0, o0, sizeof o0, &r0); runs++; if (r0 != LZMA_STREAM_END) { h_fail("determinism:big-status", "one-shot encode returned %d (look-ahead shape k=%zu)", r0, k); continue; }
+		for (int v = 0; v < 3; v++) { size_t ic = v == 0 ? 1 : v == 1 ? 64 : 997; H_CASE("c06 determinism-big look-ahead shape k=%zu in=%zu", k, ic); size_t l1 = big_encode(f, 0, bin, n, ic, 0, o1, sizeof o1, &r1); runs++;
+			if (r1 != LZMA_STREAM_END) h_fail("determinism:big-status", "encode with input pieces of %zu returned %d (look-ahead shape k=%zu)", ic, r1, k);
+			else if (l1 != l0 || memcmp(o0, o1, l0)) h_fail("determinism:big-bytes", "input pieces of %zu give %zu bytes, one call gives %zu (or different content): 273-byte match first visible %zu bytes ahead", ic, l1, l0, k); } }
+}
+
 int main(int argc, char **argv) {
 	h_init(); h_watchdog(5, 12);	/* 60 s of CPU inside one element = the call under test does not return */ h_set_init(&obs, 1 << 12); enc_opts();
 	if (argc < 5) { fprintf(stderr, "usage\n"); return 2; }
@@ -196,6 +241,7 @@ int main(int argc, char **argv) {
 			if (h_expired()) goto out;
 		}
 		if (shard == 0) determinism(thorough);
+		if (shard == nsh - 1) determinism_big();
 	}
 out:
 	printf("STAT evals=%ld distinct=%ld states=%ld transitions=%ld cuts=%ld\n", runs, nontrivial, (long)obs.n, runs, cuts_total);
